@@ -201,12 +201,11 @@ static void led_printparts(char *ai, char *pref, char *main,
 	term_commit();
 }
 
-/* continue reading the character starting with c */
-/* read the rest of a multi-byte character; a signal may interrupt the wait */
-static int led_readrest(char *buf, int n)
+/* read bytes beg..n-1 of a character; a signal may interrupt the wait */
+static int led_readrest(char *buf, int beg, int n)
 {
 	int i, j, c;
-	for (i = 1; i < n; i++) {
+	for (i = beg; i < n; i++) {
 		c = term_read();
 		for (j = 0; c < 0 && j < 8; j++)
 			c = term_read();
@@ -217,16 +216,18 @@ static int led_readrest(char *buf, int n)
 	return 0;
 }
 
+/* continue reading the character starting with c */
 static char *led_readchar(int c, int kmap)
 {
 	static char buf[8];
 	int c1, c2;
 	int n;
 	if (c == TK_CTL('v')) {		/* literal character */
-		buf[0] = term_read();
+		if (led_readrest(buf, 0, 1))
+			return NULL;
 		buf[1] = '\0';
 		n = uc_len(buf);	/* the rest of a multi-byte character */
-		if (led_readrest(buf, n))
+		if (led_readrest(buf, 1, n))
 			return NULL;
 		buf[n > 0 ? n : 1] = '\0';
 		return buf;
@@ -245,7 +246,7 @@ static char *led_readchar(int c, int kmap)
 	if ((c & 0xc0) == 0xc0) {	/* utf-8 character */
 		buf[0] = c;
 		n = uc_len(buf);
-		if (led_readrest(buf, n))
+		if (led_readrest(buf, 1, n))
 			return NULL;
 		buf[n] = '\0';
 		return buf;
